@@ -5,7 +5,7 @@ from checks import common_loops as cl, common_core as cc
 PID = "C27"
 RULE = ("Built with open-coroutine-core's `io_uring` feature (works on this kernel); one process per case: 1-32 coroutine callers (+ one plain-thread caller in a third of the cases) each issue 8-40 operations through the core entry points: "
         "pwrite of a unique block at a unique offset + pread back, send + recv of a unique 8-byte tag on an own socketpair, and operations that must complete negatively (pwrite through a read-only descriptor -> EBADF, recv on a regular file -> ENOTSOCK, mkdirat of an existing directory -> EEXIST, mkdirat below /sys and pwrite to a write-sealed memfd -> whatever errno the native call reports, e.g. EPERM). "
-        "A third of the operations use the other calls that go through io_uring: pwritev/preadv of two unique pieces at a unique offset; write/writev/read/readv on a socket pair of its own, shutdown(SHUT_WR) then read at end of stream (0), fsync, close (0) and close of a descriptor number that was never open (EBADF); renameat of an own file (new name exists, old one gone) and of the now missing source (ENOENT); socket + connect to an own listener + accept/accept4 + send/recv of a tag + half-close + recv at end of stream. "
+        "A third of the operations use the other calls that go through io_uring: pwritev/preadv of two unique pieces at a unique offset; write/writev/read/readv on a socket pair of its own, shutdown(SHUT_WR) then read at end of stream (0), fsync, close (0) and close of a descriptor number that was never open (EBADF); renameat of an own file (new name exists, old one gone) and of the now missing source (ENOENT); socket + connect to an own listener + accept/accept4 + send/recv of a tag + half-close + recv at end of stream; 64 bytes queued on a TCP connection and received 16 at a time (completions that carry the 'more data in the socket' flag). "
         "Oracle per call: own byte count and own data (somebody else's data = cross-delivery), -1 with exactly the expected errno; a caller still blocked 5 s after the last completion anybody received = lost completion. "
         "One operation in 16 sends with a 300 ms send timeout (completes at once) and then receives data that only arrives after 600 ms: what the finished call left behind must not end the next one. "
         "One operation in 12 checks that a call only obeys the timeout of its own direction: a write-type call (send, sendto, sendmsg, write, writev) on a full socket whose SO_RCVTIMEO is 100 ms, or a read-type call (recv, recvmsg, read, readv) on an empty socket whose SO_SNDTIMEO is 100 ms, with a peer that acts after 300 ms, must return its 8 bytes. "
